@@ -337,7 +337,8 @@ def run_history(ctx, which, strict, ops):
 
 def histories(ctx):
     """all histories of <= 4 operations; an operation = append(id) or extend([id, id])."""
-    full = ctx.thorough
+    full = True
+    deep = ctx.thorough
     ids = range(len(IDS))
     ops = [('append', (i,)) for i in ids] + [('extend', (i, j)) for i in ids for j in ids] + [('extend', ())]
     maxlen = 3
@@ -351,8 +352,8 @@ def histories(ctx):
     for seq in itertools.product(app, repeat=4):
         yield seq
     rng = ctx.rng
-    for _ in range(20000 if full else 2000):
-        yield tuple(rng.choice(ops) for _ in range(4))
+    for _ in range(400000 if deep else 20000):
+        yield tuple(rng.choice(ops) for _ in range(rng.choice((4, 4, 5))))
 
 
 def hash_seq(seq):
